@@ -1,6 +1,6 @@
 (* TzFooter.v — C18, the footer: the POSIX TZ string parser reads back the rule that a printer of the
    RFC 8536 footer syntax wrote ("STD" offset ["DST" offset "," date "/" time "," date "/" time]). *)
-From Astro Require Import Base Text DateModel TimeModel ApiModel FormatModel TzModel TzProofs PadProofs RfcProofs FieldProofs.
+From Astro Require Import Base Text DateModel TimeModel ApiModel FormatModel TzModel TzProofs TzCodec PadProofs RfcProofs FieldProofs.
 
 (* ---------- printing ---------- *)
 Definition dec_str (n : Z) : bytes := u_to_string n.
@@ -94,3 +94,275 @@ Proof.
     change (c0 :: ct ++ 58 :: zero_padded m 2 ++ 58 :: zero_padded s 2 ++ rest) with ((c0 :: ct) ++ 58 :: zero_padded m 2 ++ 58 :: zero_padded s 2 ++ rest).
     apply Body.
 Qed.
+
+Lemma parse_tz_offset_str mx t rest : 0 <= mx <= 167 -> Z.abs t / 3600 <= mx -> nd rest ->
+  parse_tz_offset mx (hms_str t ++ rest) = TzOk (t, rest).
+Proof.
+  intros Hm Ht Hr. assert (Ha : Z.abs t < 1000000000).
+  { pose proof (Z.div_mod (Z.abs t) 3600 ltac:(lia)). pose proof (Z.mod_pos_bound (Z.abs t) 3600 ltac:(lia)). lia. }
+  unfold parse_tz_offset. rewrite (parse_hms_str t rest Ha Hr). cbn [tzbind].
+  set (a := Z.abs t) in *. assert (H0 : 0 <= a) by (subst a; lia).
+  assert (Hh : 0 <= a / 3600) by (apply Z.div_pos; lia).
+  assert (Hmi : 0 <= a mod 3600 / 60 <= 59).
+  { pose proof (Z.mod_pos_bound a 3600 ltac:(lia)). split; [apply Z.div_pos; lia|]. assert (a mod 3600 / 60 < 60) by (apply Z.div_lt_upper_bound; lia). lia. }
+  assert (Hs : 0 <= a mod 60 <= 59) by (pose proof (Z.mod_pos_bound a 60 ltac:(lia)); lia).
+  assert (E : a / 3600 * 3600 + a mod 3600 / 60 * 60 + a mod 60 = a).
+  { lia. }
+  destruct (Z.leb_spec 0 (a / 3600)); [|lia]. destruct (Z.leb_spec (a / 3600) mx); [|lia].
+  destruct (Z.leb_spec 0 (a mod 3600 / 60)); [|lia]. destruct (Z.leb_spec (a mod 3600 / 60) 59); [|lia].
+  destruct (Z.leb_spec 0 (a mod 60)); [|lia]. destruct (Z.leb_spec (a mod 60) 59); [|lia].
+  cbn [andb negb]. rewrite E. f_equal. f_equal. subst a. destruct (Z.ltb_spec t 0); lia.
+Qed.
+
+(* ---------- rules: Jn | n | Mm.w.d, then /time ---------- *)
+Definition day_ok (d : rule_day) : Prop :=
+  match d with
+  | JulianNoLeap n => 1 <= n <= 365
+  | JulianLeap n => 0 <= n <= 365
+  | MonthWeekDay m w wd => 1 <= m <= 12 /\ 1 <= w <= 5 /\ 0 <= wd <= 6
+  end.
+Lemma nd_cons c rest : is_ascii_digit c = false -> nd (c :: rest).
+Proof. intros H. exact H. Qed.
+Lemma dec_head n : 0 <= n < 1000000000000 -> exists c ct, dec_str n = c :: ct /\ is_ascii_digit c = true.
+Proof.
+  intros H. destruct (dec_str_spec n ltac:(split; [lia | apply small_lt_pow; lia])) as (A & _ & N).
+  destruct (dec_str n) as [|c ct]; [congruence|]. exists c, ct. split; [reflexivity|].
+  cbn [all_digits forallb] in A. apply andb_true_iff in A as [A _]. exact A.
+Qed.
+Lemma read_exact_1 c rest : read_exact 1 (c :: rest) = TzOk ([c], rest).
+Proof. unfold read_exact. cbn [length]. destruct (Z.ltb_spec (Z.of_nat (S (length rest))) 1); [lia|]. reflexivity. Qed.
+
+Lemma parse_rule_str d time rest (ext : bool) : day_ok d -> Z.abs time / 3600 <= (if ext then 167 else 24) -> nd rest ->
+  parse_rule (rule_str d time ++ rest) ext = TzOk (d, time, rest).
+Proof.
+  intros Hd Ht Hr. unfold rule_str. rewrite <- !app_assoc. cbn [app].
+  assert (Hmx : 0 <= (if ext then 167 else 24) <= 167) by (destruct ext; lia).
+  assert (Tail : forall day : rule_day,
+     (if head_is 47 (47 :: hms_str time ++ rest)
+      then let! '(t, cur2) := parse_tz_offset (if ext then 167 else 24) (tl (47 :: hms_str time ++ rest)) in TzOk (day, t, cur2)
+      else TzOk (day, 7200, 47 :: hms_str time ++ rest)) = TzOk (day, time, rest)).
+  { intros day. cbn [head_is Z.eqb Pos.eqb tl]. rewrite (parse_tz_offset_str _ time rest Hmx Ht Hr). reflexivity. }
+  assert (N47 : nd (47 :: hms_str time ++ rest)) by reflexivity.
+  assert (U32 : forall n, 0 <= n <= 365 -> parse_int U32_MAX (dec_str n) = TzOk n).
+  { intros n Hn. apply parse_int_dec; [unfold U32_MAX; lia | apply small_lt_pow; lia]. }
+  assert (U8 : forall n, 0 <= n <= 12 -> parse_int 255 (dec_str n) = TzOk n).
+  { intros n Hn. apply parse_int_dec; [lia | apply small_lt_pow; lia]. }
+  assert (AD : forall n, 0 <= n <= 365 -> all_digits (dec_str n) = true).
+  { intros n Hn. apply (dec_str_spec n). split; [lia | apply small_lt_pow; lia]. }
+  unfold parse_rule. destruct d as [n | n | m w wd]; cbn [day_ok] in Hd; cbn [day_str].
+  - cbn [app get_next tzbind Z.eqb Pos.eqb tl]. unfold read_while. rewrite (tw_digits (dec_str n) _ (AD n ltac:(lia)) N47).
+    rewrite (U32 n) by lia. cbn [tzbind].
+    destruct (Z.leb_spec 1 n); [|lia]. destruct (Z.leb_spec n 365); [|lia]. cbn [andb negb tzbind]. apply Tail.
+  - destruct (dec_head n ltac:(lia)) as (c & ct & Ec & Dc).
+    assert (Hc : c <> 74). { unfold is_ascii_digit in Dc. apply andb_true_iff in Dc as [A B]. apply Z.leb_le in A, B. lia. }
+    pose proof (AD n ltac:(lia)) as An. pose proof (U32 n ltac:(lia)) as Un. rewrite Ec in *.
+    cbn [app get_next tzbind]. destruct (Z.eqb_spec c 74); [contradiction|]. rewrite Dc.
+    unfold read_while. change (c :: ct ++ 47 :: hms_str time ++ rest) with ((c :: ct) ++ 47 :: hms_str time ++ rest).
+    rewrite (tw_digits (c :: ct) _ An N47). rewrite Un. cbn [tzbind].
+    destruct (Z.ltb_spec 365 n); [lia|]. cbn [tzbind]. apply Tail.
+  - destruct Hd as (Hm & Hw & Hwd). repeat (first [rewrite <- app_assoc | progress cbn [app]]). cbn [app get_next tzbind Z.eqb Pos.eqb tl is_ascii_digit Z.leb Z.compare Pos.compare Pos.compare_cont andb].
+    unfold read_until, read_while. rewrite (tw_until46 (dec_str m)) by (apply AD; lia). rewrite (U8 m) by lia. cbn [tzbind].
+    rewrite read_exact_1. cbn [tzbind]. rewrite (tw_until46 (dec_str w)) by (apply AD; lia). rewrite (U8 w) by lia. cbn [tzbind].
+    rewrite read_exact_1. cbn [tzbind]. rewrite (tw_digits (dec_str wd) _ (AD wd ltac:(lia)) N47). rewrite (U8 wd) by lia. cbn [tzbind].
+    destruct (Z.leb_spec 1 m); [|lia]. destruct (Z.leb_spec m 12); [|lia]. destruct (Z.leb_spec 1 w); [|lia]. destruct (Z.leb_spec w 5); [|lia].
+    destruct (Z.ltb_spec 6 wd); [lia|]. cbn [andb negb orb tzbind]. apply Tail.
+Qed.
+
+(* ---------- designations ---------- *)
+Definition na (rest : bytes) : Prop := match rest with [] => True | c :: _ => is_ascii_alphabetic c = false end.
+Lemma remove_designation_abbr rest : na rest -> remove_designation (STD ++ rest) = TzOk rest /\ remove_designation (DST ++ rest) = TzOk rest.
+Proof.
+  intros Hr. assert (T : take_while is_ascii_alphabetic rest = ([], rest)).
+  { destruct rest as [|c r]; [reflexivity|]. cbn [take_while]. cbn [na] in Hr. rewrite Hr. reflexivity. }
+  unfold remove_designation, read_while, STD, DST. cbn [app get_next tzbind Z.eqb Pos.eqb].
+  split; cbn [take_while is_ascii_alphabetic Z.leb Z.compare Pos.compare Pos.compare_cont andb orb]; rewrite T; reflexivity.
+Qed.
+Lemma hms_head t rest : Z.abs t < 1000000000 -> exists c r, hms_str t ++ rest = c :: r /\ (c = 45 \/ is_ascii_digit c = true).
+Proof.
+  intros Ht. unfold hms_str. cbv zeta. destruct (Z.ltb_spec t 0).
+  - eexists _, _. split; [reflexivity | left; reflexivity].
+  - destruct (dec_head (Z.abs t / 3600)) as (c & ct & E & D).
+    { split; [apply Z.div_pos; lia | apply Z.div_lt_upper_bound; lia]. }
+    rewrite E. eexists _, _. split; [reflexivity | right; exact D].
+Qed.
+Lemma hms_na t rest : Z.abs t < 1000000000 -> na (hms_str t ++ rest).
+Proof.
+  intros Ht. destruct (hms_head t rest Ht) as (c & r & E & [-> | D]); rewrite E; cbn [na]; [reflexivity|].
+  unfold is_ascii_digit in D. apply andb_true_iff in D as [A B]. apply Z.leb_le in A, B. unfold is_ascii_alphabetic.
+  destruct (Z.leb_spec 65 c); [lia|]. destruct (Z.leb_spec 97 c); [lia|]. reflexivity.
+Qed.
+
+(* ---------- the character set of a printed footer ---------- *)
+Definition pr (b : Z) : bool := (33 <=? b) && (b <? 128).
+Definition printable (bs : bytes) : Prop := forallb pr bs = true.
+Lemma printable_app a b : printable a -> printable b -> printable (a ++ b).
+Proof. unfold printable. intros A B. rewrite forallb_app, A, B. reflexivity. Qed.
+Lemma printable_cons c b : pr c = true -> printable b -> printable (c :: b).
+Proof. unfold printable. intros A B. cbn [forallb]. rewrite A, B. reflexivity. Qed.
+Lemma printable_digits ds : all_digits ds = true -> printable ds.
+Proof.
+  unfold printable, all_digits. intros A. rewrite forallb_forall in *. intros x Hx. specialize (A x Hx).
+  unfold is_ascii_digit in A. apply andb_true_iff in A as [P Q]. apply Z.leb_le in P, Q. unfold pr.
+  destruct (Z.leb_spec 33 x); [|lia]. destruct (Z.ltb_spec x 128); [|lia]. reflexivity.
+Qed.
+Lemma printable_dec n : 0 <= n < 1000000000000 -> printable (dec_str n).
+Proof. intros H. apply printable_digits, (dec_str_spec n). split; [lia | apply small_lt_pow; lia]. Qed.
+Lemma printable_zp2 x : 0 <= x < 100 -> printable (zero_padded x 2).
+Proof.
+  intros H. assert (P100 : 100 < 10 ^ 40) by (apply Z.ltb_lt; vm_compute; reflexivity).
+  apply printable_digits, (zero_padded_spec x 2). lia.
+Qed.
+Lemma printable_hms t : Z.abs t < 1000000000 -> printable (hms_str t).
+Proof.
+  intros Ht. unfold hms_str. cbv zeta. set (a := Z.abs t) in *. assert (0 <= a) by (subst a; lia).
+  apply printable_app; [destruct (t <? 0); reflexivity|].
+  apply printable_app; [apply printable_dec; split; [apply Z.div_pos; lia | apply Z.div_lt_upper_bound; lia]|].
+  apply printable_app; [reflexivity|]. apply printable_app.
+  { apply printable_zp2. pose proof (Z.mod_pos_bound a 3600 ltac:(lia)). split; [apply Z.div_pos; lia | apply Z.div_lt_upper_bound; lia]. }
+  apply printable_app; [reflexivity|]. apply printable_zp2. pose proof (Z.mod_pos_bound a 60 ltac:(lia)). lia.
+Qed.
+Lemma printable_rule d t : day_ok d -> Z.abs t < 1000000000 -> printable (rule_str d t).
+Proof.
+  intros Hd Ht. unfold rule_str. apply printable_app; [| apply printable_app; [reflexivity | apply printable_hms; exact Ht]].
+  destruct d as [n | n | m w wd]; cbn [day_ok] in Hd; cbn [day_str].
+  - apply printable_cons; [reflexivity | apply printable_dec; lia].
+  - apply printable_dec; lia.
+  - destruct Hd as (A & B & C). apply printable_cons; [reflexivity|].
+    repeat (apply printable_app; [first [apply printable_dec; lia | reflexivity]|]). apply printable_dec; lia.
+Qed.
+
+Lemma utf8_ascii bs : forall fuel, forallb (fun b => b <? 128) bs = true -> utf8_valid_aux bs fuel = true.
+Proof.
+  induction bs as [|b bs IH]; intros fuel H; destruct fuel as [|k]; try reflexivity.
+  cbn [forallb] in H. apply andb_true_iff in H as [Hb H]. cbn [utf8_valid_aux]. rewrite Hb. apply IH, H.
+Qed.
+Lemma printable_lt128 bs : printable bs -> forallb (fun b => b <? 128) bs = true.
+Proof.
+  unfold printable. intros H. rewrite forallb_forall in *. intros x Hx. specialize (H x Hx). unfold pr in H.
+  apply andb_true_iff in H as [_ H]. exact H.
+Qed.
+Lemma printable_no0 bs : printable bs -> contains 0 bs = false.
+Proof.
+  unfold printable, contains. induction bs as [|b bs IH]; intros H; [reflexivity|]. cbn [forallb] in H. apply andb_true_iff in H as [Hb H].
+  cbn [existsb]. rewrite (IH H). unfold pr in Hb. apply andb_true_iff in Hb as [Hb _]. apply Z.leb_le in Hb.
+  destruct (Z.eqb_spec 0 b); [lia|]. reflexivity.
+Qed.
+Lemma pr_not_ws b : pr b = true -> is_ascii_ws b = false.
+Proof.
+  unfold pr, is_ascii_ws. intros H. apply andb_true_iff in H as [H _]. apply Z.leb_le in H.
+  destruct (Z.eqb_spec b 32); [lia|]. destruct (Z.eqb_spec b 9); [lia|]. destruct (Z.eqb_spec b 10); [lia|].
+  destruct (Z.eqb_spec b 12); [lia|]. destruct (Z.eqb_spec b 13); [lia|]. reflexivity.
+Qed.
+Lemma drop_ws_printable bs : printable bs -> drop_while is_ascii_ws bs = bs.
+Proof.
+  unfold printable. destruct bs as [|b bs]; [reflexivity|]. cbn [forallb]. intros H. apply andb_true_iff in H as [Hb _].
+  cbn [drop_while]. rewrite (pr_not_ws b Hb). reflexivity.
+Qed.
+Lemma printable_rev bs : printable bs -> printable (rev bs).
+Proof. unfold printable. intros H. rewrite forallb_forall in *. intros x Hx. apply H, in_rev, Hx. Qed.
+Lemma trim_footer tz : printable tz -> tz <> [] -> trim_ascii_ws ([10] ++ tz ++ [10]) = tz.
+Proof.
+  intros P N. unfold trim_ascii_ws. cbn [app drop_while is_ascii_ws Z.eqb Pos.eqb orb].
+  assert (D1 : drop_while is_ascii_ws (tz ++ [10]) = tz ++ [10]).
+  { destruct tz as [|b t]; [congruence|]. unfold printable in P. cbn [forallb] in P. apply andb_true_iff in P as [Hb _].
+    cbn [app drop_while]. rewrite (pr_not_ws b Hb). reflexivity. }
+  rewrite D1, rev_app_distr. cbn [rev app drop_while is_ascii_ws Z.eqb Pos.eqb orb].
+  rewrite (drop_ws_printable (rev tz) (printable_rev tz P)). apply rev_involutive.
+Qed.
+
+(* ---------- the footer ---------- *)
+Definition footer_ok (ext : bool) (r : trule) : Prop :=
+  let mx := if ext then 167 else 24 in
+  match r with
+  | RFixed u => Z.abs u / 3600 <= 24
+  | RAlt a => Z.abs (a_std a) / 3600 <= 24 /\ Z.abs (a_dst a) / 3600 <= 24 /\ day_ok (a_std_end a) /\ day_ok (a_dst_end a)
+              /\ Z.abs (a_std_end_time a) / 3600 <= mx /\ Z.abs (a_dst_end_time a) / 3600 <= mx
+  end.
+Lemma small_of_hours t mx : 0 <= mx <= 167 -> Z.abs t / 3600 <= mx -> Z.abs t < 1000000000.
+Proof. intros Hm Ht. pose proof (Z.div_mod (Z.abs t) 3600 ltac:(lia)). pose proof (Z.mod_pos_bound (Z.abs t) 3600 ltac:(lia)). lia. Qed.
+
+Lemma tz_str_printable ext r : footer_ok ext r -> printable (tz_str r) /\ exists rest, tz_str r = 83 :: rest.
+Proof.
+  intros Hok. assert (Hmx : 0 <= (if ext then 167 else 24) <= 167) by (destruct ext; lia).
+  destruct r as [u | a]; cbn [footer_ok] in Hok; cbv zeta in Hok; cbn [tz_str].
+  - split; [| eexists; reflexivity]. apply printable_app; [reflexivity|]. apply printable_hms. rewrite Z.abs_opp. apply (small_of_hours u 24); lia.
+  - destruct Hok as (H1 & H2 & H3 & H4 & H5 & H6). split; [| eexists; reflexivity].
+    apply printable_app; [reflexivity|]. apply printable_app; [apply printable_hms; rewrite Z.abs_opp; apply (small_of_hours _ 24); lia|].
+    apply printable_app; [reflexivity|]. apply printable_app; [apply printable_hms; rewrite Z.abs_opp; apply (small_of_hours _ 24); lia|].
+    apply printable_app; [reflexivity|]. apply printable_app; [apply printable_rule; [assumption | apply (small_of_hours _ _ Hmx); assumption]|].
+    apply printable_app; [reflexivity|]. apply printable_rule; [assumption | apply (small_of_hours _ _ Hmx); assumption].
+Qed.
+
+Lemma match_DST {A} x (k1 k2 : A) : match DST ++ x with [] => k1 | _ :: _ => k2 end = k2.
+Proof. reflexivity. Qed.
+
+Theorem from_tz_string_footer (ext : bool) r : footer_ok ext r -> from_tz_string (footer_of r) ext = TzOk (Some r).
+Proof.
+  intros Hok. destruct (tz_str_printable ext r Hok) as (P & body & Eb).
+  assert (Hmx : 0 <= (if ext then 167 else 24) <= 167) by (destruct ext; lia).
+  unfold from_tz_string, footer_of.
+  assert (U : utf8_valid ([10] ++ tz_str r ++ [10]) = true).
+  { unfold utf8_valid. apply utf8_ascii. rewrite !forallb_app, (printable_lt128 _ P). reflexivity. }
+  rewrite U. cbn [negb]. 
+  assert (H1 : head_is 10 ([10] ++ tz_str r ++ [10]) = true) by reflexivity.
+  assert (H2 : head_is 10 (rev ([10] ++ tz_str r ++ [10])) = true).
+  { rewrite !rev_app_distr. reflexivity. }
+  rewrite H1, H2. cbn [negb orb].
+  assert (N : tz_str r <> []) by (rewrite Eb; discriminate).
+  rewrite (trim_footer _ P N), (printable_no0 _ P).
+  assert (H3 : head_is 58 (tz_str r) = false) by (rewrite Eb; reflexivity). rewrite H3. cbn [orb].
+  destruct (tz_str r) as [|c0 t0] eqn:Etz; [congruence|]. rewrite <- Etz. clear Eb body H3 N H1 H2 U P Etz c0 t0.
+  destruct r as [u | a]; cbn [footer_ok] in Hok; cbv zeta in Hok; cbn [tz_str].
+  - assert (Su : Z.abs (- u) < 1000000000) by (rewrite Z.abs_opp; apply (small_of_hours u 24); lia).
+    destruct (remove_designation_abbr (hms_str (- u))) as [R _]. { rewrite <- (app_nil_r (hms_str (- u))). apply hms_na, Su. }
+    rewrite R. cbn [tzbind]. rewrite <- (app_nil_r (hms_str (- u))).
+    rewrite (parse_tz_offset_str 24 (- u) []) by (try lia; try exact I; rewrite Z.abs_opp; exact Hok).
+    cbn [tzbind]. rewrite Z.opp_involutive. reflexivity.
+  - destruct Hok as (A1 & A2 & A3 & A4 & A5 & A6). destruct a as [std se set_ dst de det]. cbn [a_std a_std_end a_std_end_time a_dst a_dst_end a_dst_end_time] in *.
+    assert (Ss : Z.abs (- std) < 1000000000) by (rewrite Z.abs_opp; apply (small_of_hours std 24); lia).
+    assert (Sd : Z.abs (- dst) < 1000000000) by (rewrite Z.abs_opp; apply (small_of_hours dst 24); lia).
+    idtac.
+    destruct (remove_designation_abbr (hms_str (- std) ++ DST ++ hms_str (- dst) ++ [44] ++ rule_str se set_ ++ [44] ++ rule_str de det)) as [R _]; [apply hms_na, Ss|].
+    rewrite R. cbn [tzbind].
+    rewrite (parse_tz_offset_str 24 (- std)) by (try lia; try reflexivity; rewrite Z.abs_opp; exact A1). cbn [tzbind].
+    rewrite match_DST.
+    destruct (remove_designation_abbr (hms_str (- dst) ++ [44] ++ rule_str se set_ ++ [44] ++ rule_str de det)) as [_ R2]; [apply hms_na, Sd|].
+    rewrite R2. cbn [tzbind].
+    destruct (hms_head (- dst) ([44] ++ rule_str se set_ ++ [44] ++ rule_str de det) Sd) as (c & rr & Ec & Hc).
+    assert (H44 : head_is 44 (hms_str (- dst) ++ [44] ++ rule_str se set_ ++ [44] ++ rule_str de det) = false).
+    { rewrite Ec. cbn [head_is]. destruct Hc as [-> | D]; [reflexivity|]. unfold is_ascii_digit in D. apply andb_true_iff in D as [X Y]. apply Z.leb_le in X, Y.
+      destruct (Z.eqb_spec c 44); [lia | reflexivity]. }
+    rewrite H44. 
+    assert (Enz : forall (A : Type) (k1 k2 : A), match hms_str (- dst) ++ [44] ++ rule_str se set_ ++ [44] ++ rule_str de det with [] => k2 | _ :: _ => k1 end = k1).
+    { intros. rewrite Ec. reflexivity. }
+    rewrite Enz.
+    rewrite (parse_tz_offset_str 24 (- dst)) by (try lia; try reflexivity; rewrite Z.abs_opp; exact A2). cbn [tzbind].
+    unfold read_tag. cbn [app length firstn skipn text_eqb].
+    match goal with |- context [Z.of_nat (S ?n) <? Z.of_nat 1] => destruct (Z.ltb_spec (Z.of_nat (S n)) (Z.of_nat 1)); [lia|] end.
+    cbn [text_eqb Z.eqb Pos.eqb andb tzbind].
+    rewrite (parse_rule_str se set_ (44 :: rule_str de det) ext A3 A5 ltac:(reflexivity)). cbn [tzbind].
+    cbn [app length firstn skipn].
+    match goal with |- context [Z.of_nat (S ?n) <? Z.of_nat 1] => destruct (Z.ltb_spec (Z.of_nat (S n)) (Z.of_nat 1)); [lia|] end.
+    cbn [text_eqb Z.eqb Pos.eqb andb tzbind].
+    rewrite <- (app_nil_r (rule_str de det)). rewrite (parse_rule_str de det [] ext A4 A6 I). cbn [tzbind].
+    rewrite !Z.opp_involutive. reflexivity.
+Qed.
+
+(* ---------- a whole file: layout + footer ---------- *)
+Theorem from_tzif_file v trans types chars r : v <> V1 ->
+  Forall (fun tr => in_i64 (fst tr)) trans -> Forall in_i32 types ->
+  u32ok (Z.of_nat (length trans)) -> u32ok (Z.of_nat (length types)) -> u32ok (Z.of_nat (length chars)) ->
+  footer_ok (match v with V3 => true | _ => false end) r ->
+  existsb (fun tr => Z.of_nat (length types) <=? snd tr) trans = false ->
+  from_tzif (enc_file v trans types chars (footer_of r)) = TzOk (mkTz trans types (Some r)).
+Proof.
+  intros Hv Ht Hy U1 U2 U3 Hok Hix. rewrite (from_tzif_encoded v trans types chars (footer_of r) Hv Ht Hy U1 U2 U3).
+  rewrite (from_tz_string_footer _ r Hok). cbn [tzbind]. rewrite Hix, andb_false_r. reflexivity.
+Qed.
+
+Example footer_europe :
+  let r := RAlt (mkAlt 3600 (MonthWeekDay 3 5 0) 7200 7200 (MonthWeekDay 10 5 0) 10800) in
+  and (footer_ok false r)
+  (footer_of r = [10; 83;84;68; 45;49;58;48;48;58;48;48; 68;83;84; 45;50;58;48;48;58;48;48; 44; 77;51;46;53;46;48; 47; 50;58;48;48;58;48;48;
+                 44; 77;49;48;46;53;46;48; 47; 51;58;48;48;58;48;48; 10]).      (* "\nSTD-1:00:00DST-2:00:00,M3.5.0/2:00:00,M10.5.0/3:00:00\n" *)
+Proof. cbv zeta. split; [cbn; repeat split; lia | vm_compute; reflexivity]. Qed.
